@@ -1316,9 +1316,10 @@ class Vector():
 
 	def _check_duplicate(self, other):
 		if id(self) == id(other):
-			# If the object references match, we need to copy other
-			# return Vector((x for x in other), other._default, other._dtype, other._typesafe)
-			return deepcopy(other)
+			# If the object references match, we need to copy other - the vector, not its
+			# cells: v == v compares every cell with itself (a deep copy compared it with a
+			# clone, which for cells compared by identity is another object)
+			return other.copy()
 		return other
 
 
